@@ -108,6 +108,10 @@ class Run:
         return r
 
 
+ABORT = multiprocessing.get_context('fork').Event()   # set by the first worker that meets a runaway schedule
+RUNAWAY = 160     # no maximal schedule of the enumerated configurations is longer than ~70 tokens
+
+
 def explore(c, root=(), depth_limit=None):
     """stateless depth-first enumeration of every maximal schedule of configuration c that starts
     with `root`; each is executed exactly once on a fresh real object."""
@@ -123,6 +127,18 @@ def explore(c, root=(), depth_limit=None):
             if depth_limit is not None and depth >= depth_limit:
                 cut = True
                 break
+            if ABORT.is_set():
+                r.w.close()
+                return
+            if depth > RUNAWAY or any(o['value'] == 'Spinning' for o in r.w.outcomes):
+                # some thread keeps running without ever finishing or parking: report and stop this subtree
+                ABORT.set()
+                res = r.result()
+                res['cut'] = False
+                res['runaway'] = True
+                res['body'] = res['sched'][len(c['prefix']):]
+                yield res
+                return
             if depth < len(root):
                 tok = root[depth]
                 if tok not in en:
@@ -232,7 +248,12 @@ def judge_batch(acc, results, family):
         # ---- correspondence
         mt = [[t[0], t[2], t[3], t[4]] for t in ans['trace']]
         mo = model_view(ans, W_)
-        if in_known_region(ans) or any(sig in KNOWN_SIGS for sig, _ in r['oracle']):
+        if r.get('runaway'):
+            acc.mismatch.append(('the schedule never ends: after %d tokens a thread is still runnable (busy '
+                                 'loop instead of parking?)' % len(sched),
+                                 {'variant': r['variant'], 'sched': sched, 'impl_trace_tail': r['trace'][-6:],
+                                  'model_trace_tail': mt[-6:]}))
+        elif in_known_region(ans) or any(sig in KNOWN_SIGS for sig, _ in r['oracle']):
             acc.region_skipped += 1
         elif mt != r['trace'] or mo != r['outcomes']:
             k = next((i for i, (a, b) in enumerate(zip(mt, r['trace'])) if a != b), None)
@@ -270,6 +291,8 @@ def work(task):
     kind, c, arg, family = task
     acc = Acc()
     chunk = []
+    if ABORT.is_set():
+        return acc
     if kind == 'tree':
         for res in explore(c, root=arg):
             chunk.append(res)
@@ -279,8 +302,12 @@ def work(task):
     else:
         from socketio import exceptions as sx
         for i, sched in enumerate(arg):
+            if ABORT.is_set():
+                break
             # which SocketIOError subclass the scripted client raises must not matter
             chunk.append(run_tokens(c['variant'], sched, getattr(sx, FAIL_CLASSES[(i + len(sched)) % 4])))
+            if {'exc': 'Spinning'} in chunk[-1]['outcomes']:
+                ABORT.set()
     judge_batch(acc, chunk, family)
     return acc
 
@@ -296,6 +323,54 @@ def run_tokens(variant, sched, sample_fail=None):
          'oracle': list(w.oracle)}
     w.close()
     return r
+
+
+# ------------------------------------------------------------------------------------ shrinking
+
+def still_fails(drv, variant, sched, kind):
+    """does this schedule still show a failure of the same kind (oracle / correspondence)?"""
+    if not sched:
+        return False
+    res = run_tokens(variant, sched)
+    if {'exc': 'Spinning'} in res['outcomes']:
+        return kind == 'oracle'
+    if kind == 'oracle':
+        return any(sig not in KNOWN_SIGS for sig, _ in res['oracle'])
+    ans = drv.ask({'variant': variant, 'sched': model_tokens(sched)})
+    if in_known_region(ans) or any(sig in KNOWN_SIGS for sig, _ in res['oracle']):
+        return False
+    return [[t[0], t[2], t[3], t[4]] for t in ans['trace']] != res['trace'] or \
+        model_view(ans, W()) != res['outcomes']
+
+
+def shrink(variant, sched, kind, budget=250):
+    """delta debugging on the token list"""
+    sched = list(sched)
+    if len(sched) > RUNAWAY:
+        return sched
+    drv = C.Driver('simple')
+    try:
+        if not still_fails(drv, variant, sched, kind):
+            return sched
+        n = 2
+        while len(sched) >= 2 and budget > 0:
+            size = max(1, len(sched) // n)
+            for i in range(0, len(sched), size):
+                cand = sched[:i] + sched[i + size:]
+                budget -= 1
+                if still_fails(drv, variant, cand, kind):
+                    sched = cand
+                    n = max(n - 1, 2)
+                    break
+                if budget <= 0:
+                    break
+            else:
+                if size == 1:
+                    break
+                n = min(len(sched), n * 2)
+    finally:
+        drv.close()
+    return sched
 
 
 # ------------------------------------------------------------------------------------ run
@@ -361,6 +436,7 @@ def run(ctx):
         'overtake a wake-up that is already queued (the tie "deadline reached in the same loop iteration as '
         'the set()" is outside the model)',
         'one producer thread (arrivals are appended in the order the handler is invoked)'])
+    ABORT.clear()
     C.build_driver('simple')        # once, before forking (the workers inherit the fact)
     t0 = time.time()
     nproc = max(1, min(12, (os.cpu_count() or 2) - 2))
@@ -397,9 +473,24 @@ def run(ctx):
     finally:
         pool.terminate()
         pool.join()
-    for text, rep in total.violations[:5]:
+    for text, rep in total.violations[:3]:
+        small = shrink(rep['variant'], rep['sched'], 'oracle')
+        if small != rep['sched']:
+            r2 = run_tokens(rep['variant'], small)
+            rep = {'variant': rep['variant'], 'sched': small, 'impl_outcomes': r2['outcomes'],
+                   'what': [t for sig, t in r2['oracle'] if sig not in KNOWN_SIGS], 'shrunk_from': rep['sched']}
+            text = '; '.join(rep['what']) or text
         ctx.violation('oracle', text, rep)
-    for text, rep in total.mismatch[:5]:
+    for text, rep in total.mismatch[:3]:
+        small = shrink(rep['variant'], rep['sched'], 'correspondence')
+        if small != rep['sched']:
+            r2 = run_tokens(rep['variant'], small)
+            ans = C.batch('simple', [{'variant': rep['variant'], 'sched': model_tokens(small)}])[0]
+            rep = {'variant': rep['variant'], 'sched': small, 'impl_trace': r2['trace'],
+                   'model_trace': [[t[0], t[2], t[3], t[4]] for t in ans['trace']],
+                   'impl_outcomes': r2['outcomes'], 'model_outcomes': model_view(ans, W()),
+                   'shrunk_from': rep['sched']}
+            text = 'model and implementation differ on ' + ' '.join(small)
         ctx.violation('correspondence', text, rep, no_input=True)
     for sig, (text, rep) in total.known.items():
         ctx.known(sig, text + ' — schedule (%s): %s' % (rep['variant'], ' '.join(rep['sched'])))
